@@ -52,6 +52,9 @@ CLAIMS = {
  "C20": ("Real DotRenderer on 7 builder templates x 6 configurations and on solver-chosen store shapes; the DOT source is parsed back: one node statement "
          "per node with display name and one cell per counted port, clusters nested as the hierarchy, one edge per link with the right endpoints and type "
          "label, store unchanged, configurations differ only in colours / name qualification. (Solver = choice space only; stated in evidence.)", "§6 C20"),
+ "C01": ("Bounded builder programs (13 step kinds, solver-chosen steps and wires; 7 templates; insert_* wrappers) serialised by the real to_json and judged "
+         "by a Python transcription of hugr-core's validation rules (children, rows, port counts, edge kinds/types, connectivity/linearity, acyclicity, "
+         "Ext/Dom edges with dominance, constants); the per-mechanism lemmas are discharged under C03/C06/C13/C14/C16.", "§6 C01"),
 }
 NA_PENDING = "not yet built in this session (design in DESIGN.md §6); no claim is made"
 def main():
